@@ -97,6 +97,8 @@ class Evaluator:
             d = None
             if isinstance(base, ast.Name) and base.id in locals_:
                 d = au.dict_literal(locals_[base.id])
+            elif isinstance(base, ast.Dict):
+                d = au.dict_literal(base)
             if d is not None and key is not None:
                 for k, v in d:
                     if _const(k, {}) == key:
@@ -109,8 +111,8 @@ class Evaluator:
                 return list(self.prims[p]["ports"])
             if isinstance(e.value, ast.Subscript):
                 base, key = e.value.value, _const(e.value.slice, env)
-                if isinstance(base, ast.Name) and base.id in locals_ and key is not None:
-                    d = au.dict_literal(locals_[base.id])
+                if (isinstance(base, ast.Dict) or (isinstance(base, ast.Name) and base.id in locals_)) and key is not None:
+                    d = au.dict_literal(base if isinstance(base, ast.Dict) else locals_[base.id])
                     for k, v in d or []:
                         if _const(k, {}) == key:
                             p = self.prim_of(v)
